@@ -162,6 +162,29 @@ def run(pm, ctx):
         else:
             ctx.violation("C11-a", base.unit.relpath, "DiscriminativeModel.get_gemini", f"gemini={label}", f"resolves to {res!r} "
                           f"{getattr(res, 'attrs', {}).get('ovo', '')} instead of {cls}(ovo={ovo}) with default affinity", line=base.methods["get_gemini"].lineno, site=site)
+    # gemini=None means MMD one-vs-all for EVERY estimator that takes a gemini parameter and uses the generic get_gemini (a resolution that
+    # looks at the class - its constructor default, its name - can differ between them)
+    for K in pm.concrete_estimators():
+        Cg, fg = pm.resolve_method(K, "get_gemini")
+        if K is lin or Cg is None or Cg.name != "DiscriminativeModel" or "gemini" not in effective_params(pm, K):
+            continue
+        I = Interp(pm)
+        try:
+            obj = symbolic_estimator(I, K, "int", overrides={"gemini": NoneV()})
+            res = I.call_method(obj, "get_gemini", [])
+        except Exception as e_:
+            ctx.undecided_site("C11-a", f"{K.name}.get_gemini[gemini=None]", f"{e_!r}"[:120])
+            continue
+        site = f"{K.name}.get_gemini[gemini=None]"
+        okk = isinstance(res, Obj) and res.cls is not None and "MMDGEMINI" in [c.name for c in res.cls.mro] and isinstance(res.attrs.get("ovo"), Num) \
+            and res.attrs["ovo"].const is not None and bool(res.attrs["ovo"].const) is False
+        if okk:
+            ctx.ok("C11-a", site, repr(res))
+        elif is_top(res) or (isinstance(res, Obj) and res.cls is None):
+            ctx.undecided_site("C11-a", site, f"abstract result {res!r}")
+        else:
+            ctx.violation("C11-a", base.unit.relpath, "DiscriminativeModel.get_gemini", f"gemini=None [{K.name}]", f"for {K.name}, gemini=None resolves to {res!r} instead of the "
+                          "documented MMD one-vs-all", line=base.methods["get_gemini"].lineno, site=site)
     I = Interp(pm)
     inst = I.construct(pm.classes["TVGEMINI"], [], {}, None)
     obj = symbolic_estimator(I, lin, "int", overrides={"gemini": inst})
